@@ -86,7 +86,9 @@ VALID = dict(
                 '<{p}technique_common><{p}accessor source="#{id}-pa" count="3" stride="3"><{p}param name="X" type="float"/>'
                 '<{p}param name="Y" type="float"/><{p}param name="Z" type="float"/></{p}accessor></{p}technique_common></{p}source>'
                 '<{p}vertices id="{id}-v"><{p}input semantic="POSITION" source="#{id}-p"/></{p}vertices>'
-                '<{p}triangles count="1" material="m"><{p}input semantic="VERTEX" source="#{id}-v" offset="0"/><{p}p>0 1 2</{p}p></{p}triangles>'
+                '<{p}triangles count="1" material="m"><{p}input semantic="VERTEX" source="#{id}-v" offset="0"/><{p}p>{perm}</{p}p></{p}triangles>'
+                '<{p}polylist count="2" material="m"><{p}input semantic="VERTEX" source="#{id}-v" offset="0"/><{p}vcount>3 3</{p}vcount>'
+                '<{p}p>{perm} 0 1 2</{p}p></{p}polylist>'
                 '</{p}mesh></{p}geometry>'),
     lights='<{p}light id="{id}"><{p}technique_common><{p}point><{p}color>1 0.5 0.25</{p}color></{p}point></{p}technique_common></{p}light>',
     cameras=('<{p}camera id="{id}"><{p}optics><{p}technique_common><{p}perspective><{p}xfov>45</{p}xfov><{p}znear>1</{p}znear>'
@@ -119,6 +121,7 @@ FAULTS_OF = {}
 for (_l, _c) in FAULT:
     FAULTS_OF.setdefault(_l, []).append(_c)
 FOREIGN = 'urn:x-foreign'
+PERMS = ['0 1 2', '0 2 1', '1 0 2', '1 2 0', '2 0 1', '2 1 0']
 
 
 def render(spec):
@@ -132,7 +135,7 @@ def render(spec):
             if l != lib:
                 continue
             tmpl = VALID[l] if fault is None else FAULT[(l, fault)]
-            out.append(tmpl.format(p='' if ens == ns else 'f:', id=id_))
+            out.append(tmpl.format(p='' if ens == ns else 'f:', id=id_, perm=PERMS[sum(id_.encode()) % 6]))
         out.append('</%s>' % LIBTAG[lib][0])
     out.append('<scene/></COLLADA>')
     data = '\n'.join(out).encode()
@@ -245,8 +248,8 @@ def model_line(i, op):
         return '%d ignore %s' % (i, ','.join(op[1]) if op[1] else '-')
     if k in ('add', 'remove'):
         return '%d %s %s %s' % (i, k, op[1], qid(op[2]))
-    if k == 'save':
-        return '%d save' % i
+    if k in ('save', 'query'):
+        return '%d %s' % (i, k)
     raise ValueError(op)
 
 
@@ -353,6 +356,8 @@ def do_op(slot, op):
                 return 'missing', None
             L.remove(L[op[2]])
             return 'ok', None
+        if k == 'query':
+            return 'ok', query(d).encode()
         if k == 'save':
             buf = io.BytesIO()
             d.write(buf)
@@ -364,6 +369,43 @@ def do_op(slot, op):
         raise
     except Exception as e:
         return 'fail:' + type(e).__name__, written
+
+
+def query(d):
+    """read-only public queries; the text of what they return (arrays by digest, failures by class)"""
+    import numpy
+    out = []
+
+    def arr(x):
+        if isinstance(x, numpy.ndarray):
+            return 'nd(%s,%s,%s)' % (x.dtype, x.shape, sha(x.tobytes()))
+        return type(x).__name__
+
+    def prim(p, tag):
+        try:
+            out.append('%s %s len=%d vi=%s v=%s' % (tag, type(p).__name__, len(p), arr(getattr(p, 'vertex_index', None)), arr(getattr(p, 'vertex', None))))
+            if hasattr(p, 'triangleset'):
+                ts = p.triangleset()
+                out.append('%s triangleset %s len=%d vi=%s' % (tag, type(ts).__name__, len(ts), arr(getattr(ts, 'vertex_index', None))))
+            if len(p):
+                out.append('%s first=%s' % (tag, arr(getattr(p[0], 'vertices', None))))
+        except Exception as e:
+            out.append('%s raised %s' % (tag, type(e).__name__))
+    for gi, g in enumerate(d.geometries):
+        for pi, p in enumerate(g.primitives):
+            prim(p, 'g%d.p%d' % (gi, pi))
+    for si, sc in enumerate(d.scenes):
+        for kind in ('geometry', 'light', 'camera'):
+            try:
+                objs = list(sc.objects(kind))
+                out.append('s%d %s n=%d %s' % (si, kind, len(objs), ','.join(type(o).__name__ for o in objs[:8])))
+                if kind == 'geometry':
+                    for oi, bg in enumerate(objs[:4]):
+                        for pi, bp in enumerate(bg.primitives()):
+                            prim(bp, 's%d.o%d.p%d' % (si, oi, pi))
+            except Exception as e:
+                out.append('s%d %s raised %s' % (si, kind, type(e).__name__))
+    return '\n'.join(out)
 
 
 def state_line(slot):
@@ -470,6 +512,8 @@ def observe(slot, out, written, detail):
     wd = None
     if written is not None:
         wd = sha(blank_times(written) if slot.blank else written)
+        if detail:
+            wd += ':' + written[:4000].decode('utf-8', 'replace')
     ob = dict(out=out, state=state_line(slot), snap=sha(snap.encode()), written=wd)
     if detail:
         ob['full'] = snap
@@ -659,14 +703,79 @@ def shared_objects(slots):
 
 # ----------------------------------------------------------------------------- running cases on the real code
 
-def run_solo(args):
-    """one document handled alone (called in a pristine forked process)"""
+def fork_call(f, args):
+    """f(args) computed in a fork of this process"""
+    rr, ww = os.pipe()
+    pid = os.fork()
+    if pid == 0:
+        try:
+            os.close(rr)
+            try:
+                res = ('ok', f(args))
+            except BaseException:
+                res = ('exc', traceback.format_exc())
+            with os.fdopen(ww, 'wb') as fh:
+                pickle.dump(res, fh)
+        finally:
+            os._exit(0)
+    os.close(ww)
+    with os.fdopen(rr, 'rb') as fh:
+        data = fh.read()
+    os.waitpid(pid, 0)
+    tag, val = pickle.loads(data) if data else ('exc', 'child died')
+    if tag != 'ok':
+        raise RuntimeError(val)
+    return val
+
+
+def run_ops(args):
+    """execute operations on one slot in this process"""
     ops, detail = args
     slot = Slot()
     obs = []
     for op in ops:
         out, written = do_op(slot, op)
         obs.append(observe(slot, out, written, detail))
+    return obs
+
+
+def run_solo(args):
+    """what one slot's operations show when every document OBJECT is handled alone.  Runs in a pristine fork
+    that only coordinates: each `new`/`load` is executed alone in a fresh fork (its outcome decides whether it
+    replaces the slot's document), and each document object — its creating operation followed by the edits,
+    ignores and saves made on it — in another.  A failed load, and any operation on an empty slot, shows the
+    surviving document unchanged."""
+    ops, detail = args
+    obs = [None] * len(ops)
+    seg = None
+    segs = []
+    for k, op in enumerate(ops):
+        if op[0] in ('new', 'load'):
+            r = fork_call(run_ops, ([op], detail))[0]
+            if r['out'] in ('ok', 'loaded'):
+                seg = ([k], [op])
+                segs.append(seg)
+                obs[k] = r
+            else:
+                obs[k] = ('failed', r['out'])
+        elif seg is None:
+            obs[k] = ('nodoc', 'nodoc')
+        else:
+            seg[0].append(k)
+            seg[1].append(op)
+    for idxs, sops in segs:
+        if len(sops) > 1:
+            for k, r in zip(idxs, fork_call(run_ops, (sops, detail))):
+                obs[k] = r
+    cur = dict(state='empty', snap=sha(b'empty'), full='empty')
+    for k in range(len(ops)):
+        if isinstance(obs[k], tuple):
+            o = dict(out=obs[k][1], state=cur['state'], snap=cur['snap'], written=None)
+            if detail:
+                o['full'] = cur.get('full')
+            obs[k] = o
+        else:
+            cur = obs[k]
     return obs
 
 
@@ -687,7 +796,7 @@ def run_inter(args, monitor=None):
     return dict(obs=obs, final=final, monitor=monitor.hits[h0:], shared=shared_objects(slots))
 
 
-FUNCS = dict(solo=run_solo, inter=run_inter)
+FUNCS = dict(solo=run_solo, inter=run_inter)   # solo: the forked child only coordinates and stays pristine
 
 
 class Zygote(object):
@@ -811,33 +920,51 @@ def judge(z, case, detail=False):
     return compare(case, inter, solos), inter
 
 
-def drop_doc(case, i):
-    sched = [[j - (1 if j > i else 0), op] for j, op in case['sched'] if j != i]
-    return dict(docs=case['docs'] - 1, sched=sched)
+def concat_cases(cs):
+    docs, sched = 0, []
+    for c in cs:
+        sched += [[i + docs, op] for i, op in c['sched']]
+        docs += c['docs']
+    return dict(docs=docs, sched=sched)
 
 
-def shrink(z, case, pred, budget=80):
-    """delta-debug: drop documents, then single operations, while `pred(case)` still holds"""
-    changed = True
-    while changed and budget > 0:
-        changed = False
-        for i in range(case['docs'] - 1, -1, -1):
-            if case['docs'] <= 1 or budget <= 0:
+def keep_docs(case, keep):
+    m = dict((d, n) for n, d in enumerate(keep))
+    return dict(docs=len(keep), sched=[[m[i], op] for i, op in case['sched'] if i in m])
+
+
+def ddmin(items, test, budget):
+    """delta debugging: a small sublist (order kept) on which `test` still holds.  budget = [trials left]"""
+    n = 2
+    while len(items) >= 2 and budget[0] > 0:
+        chunk = max(1, len(items) // n)
+        reduced = False
+        for s in range(0, len(items), chunk):
+            cand = items[:s] + items[s + chunk:]
+            if not cand or budget[0] <= 0:
+                continue
+            budget[0] -= 1
+            if test(cand):
+                items = cand
+                n = max(n - 1, 2)
+                reduced = True
                 break
-            cand = drop_doc(case, i)
-            budget -= 1
-            if cand['sched'] and pred(cand):
-                case = cand
-                changed = True
-        for n in range(len(case['sched']) - 1, -1, -1):
-            if budget <= 0:
+        if not reduced:
+            if chunk == 1:
                 break
-            cand = dict(docs=case['docs'], sched=case['sched'][:n] + case['sched'][n + 1:])
-            budget -= 1
-            if cand['sched'] and pred(cand):
-                case = cand
-                changed = True
-    return case
+            n = min(len(items), n * 2)
+    return items
+
+
+def shrink(z, case, pred, budget=120):
+    """drop documents, then single operations, while `pred(case)` still holds"""
+    left = [budget]
+    docs = ddmin(list(range(case['docs'])), lambda ds: bool(keep_docs(case, ds)['sched']) and pred(keep_docs(case, ds)), left)
+    case = keep_docs(case, docs)
+    sched = ddmin(case['sched'], lambda ops: pred(dict(docs=case['docs'], sched=ops)), left)
+    case = dict(docs=case['docs'], sched=sched)
+    used = sorted(set(i for i, _ in case['sched']))
+    return keep_docs(case, used)
 
 
 # ----------------------------------------------------------------------------- schedule generator
@@ -862,7 +989,7 @@ def gen_ops(rng, maxops):
         ops.append(rng.choice([['save'], ['ignore', ['DaeError']], ['add', 'lights', 'early']]))   # before any document exists
     fresh = 0
     for _ in range(rng.randint(1, maxops)):
-        k = rng.choice(['add', 'add', 'remove', 'remove', 'ignore', 'save', 'save', 'load', 'new', 'save'])
+        k = rng.choice(['add', 'add', 'remove', 'remove', 'ignore', 'save', 'save', 'load', 'new', 'save', 'query', 'query'])
         if k == 'add':
             lib = rng.choice(GEN_LIBS)
             fresh += 1
@@ -876,8 +1003,8 @@ def gen_ops(rng, maxops):
             ops.append(['remove', lib, id_])
         elif k == 'ignore':
             ops.append(['ignore', rng.choice([m for m in MASKS if m])])
-        elif k == 'save':
-            ops.append(['save'])
+        elif k in ('save', 'query'):
+            ops.append([k])
         elif k == 'load':
             if rng.random() < 0.5:
                 s = spec()
@@ -1027,7 +1154,7 @@ def _run(ctx, z):
             sig = 'iso:%s:%s' % (diff['op'], diff['field'])
             if sig not in reported:
                 reported.add(sig)
-                report_iso(ctx, z, c, diff)
+                report_iso(ctx, z, cases, ci, diff)
         if inter['monitor']:
             mon_cases.append((c, inter['monitor']))
         for a, b, pa, pb, tn in inter['shared']:
@@ -1116,24 +1243,40 @@ def _run(ctx, z):
     ctx.assumptions.append('solo runs are made in forks of a process that imported collada and never touched a document; module import is the baseline state')
 
 
-def report_iso(ctx, z, c, diff):
+def report_iso(ctx, z, cases, ci, diff):
+    """shrink and report an interleaved-vs-solo difference seen in case `ci`.  The interleaved runs share one
+    process, so the cause may lie in earlier cases: they are prepended (1, 2, 4, … of them) until the difference
+    shows up from a pristine process"""
+    want = (diff['op'], diff['field'])
+
     def pred(cc):
         d, _ = judge(z, cc)
-        return d is not None and d['op'] == diff['op'] and d['field'] == diff['field']
-    small = shrink(z, c, pred) if pred(c) else c
-    d2, inter = judge(z, small, detail=True)
-    if d2 is None:
-        # only visible with the history of this process: keep the whole case, flagged
-        ctx.violation('iso:%s:%s' % (diff['op'], diff['field']),
-                      'document %d shows %r for %s after earlier schedules in this process but %r alone; not reproduced from a pristine process'
-                      % (diff['doc'], diff['inter'][diff['field']], diff['op'], diff['solo'][diff['field']]),
-                      dict(kind='iso', case=c, note='needs process history'), found_input=True)
+        return d is not None and (d['op'], d['field']) == want
+    base = None
+    for h in (0, 1, 2, 4, 8, 16, 32, 64, 128):
+        h = min(h, ci)
+        cand = concat_cases(cases[ci - h:ci + 1])
+        if pred(cand):
+            base = cand
+            break
+        if h == ci:
+            break
+    sig = 'iso:%s:%s' % want
+    if base is None:
+        ctx.violation('corr:unreproduced:' + sig,
+                      'document %d shows %s=%r for %s in the run of all schedules in one process but %r alone; the difference did not '
+                      'show up again from a pristine process' % (diff['doc'], diff['field'], diff['inter'][diff['field']], diff['op'], diff['solo'][diff['field']]),
+                      dict(kind='iso', case=concat_cases(cases[max(0, ci - 8):ci + 1])), found_input=False)
         return
+    small = shrink(z, base, pred)
+    d2, inter = judge(z, small, detail=True)
     mon = '; module state written: %s' % sorted(set(a for _, ch in inter['monitor'] for a in ch))[:4] if inter['monitor'] else ''
-    ctx.violation('iso:%s:%s' % (d2['op'], d2['field']),
-                  'document %d, its operation #%d (%s), shows %s=%r when interleaved but %r when handled alone%s. %s Schedule: %s'
-                  % (d2['doc'], d2['k'], d2['op'], d2['field'], d2['inter'][d2['field']], d2['solo'][d2['field']], mon,
-                     text_diff(*d2['full']) if d2['field'] == 'snap' else '', brief(small)),
+    ctx.violation(sig,
+                  'document %d, its operation #%d (%s), shows %s=%r when other documents are handled in the same process but %r when handled alone%s. %s Schedule: %s'
+                  % (d2['doc'], d2['k'], d2['op'], d2['field'], str(d2['inter'][d2['field']])[:200], str(d2['solo'][d2['field']])[:200], mon,
+                     text_diff(*d2['full']) if d2['field'] == 'snap' else
+                     text_diff(d2['inter']['written'], d2['solo']['written']).replace('snapshots', 'written bytes / query results') if d2['field'] == 'written' else '',
+                     brief(small)),
                   dict(kind='iso', case=small), found_input=True)
 
 
@@ -1157,7 +1300,7 @@ def directed_search(ctx, z, c, where, reported):
             sig = 'iso:%s:%s' % (d['op'], d['field'])
             if sig not in reported:
                 reported.add(sig)
-                report_iso(ctx, z, cand, d)
+                report_iso(ctx, z, [cand], 0, d)
             return True
     return False
 
@@ -1261,7 +1404,9 @@ def replay(ctx, rep):
             d, inter = judge(z, rep['case'], detail=True)
             if d is None:
                 return False
-            print('  document %d, operation #%d (%s): %s interleaved=%r solo=%r' % (d['doc'], d['k'], d['op'], d['field'], d['inter'][d['field']], d['solo'][d['field']]))
+            print('  document %d, operation #%d (%s): %s interleaved=%r solo=%r' % (d['doc'], d['k'], d['op'], d['field'], str(d['inter'][d['field']])[:200], str(d['solo'][d['field']])[:200]))
+            if d['field'] == 'written':
+                print('  ' + text_diff(d['inter']['written'], d['solo']['written']))
             if d['field'] == 'snap':
                 print('  ' + text_diff(*d['full']))
             return True
